@@ -991,11 +991,37 @@ def option_hygiene(model: Model, fc: FnCls, R: RuleResult) -> int:
                 for t in node.targets:
                     if isinstance(t, ast.Subscript) and isinstance(t.value, ast.Name) and t.value.id in al:
                         bad = node
+        if f is fw:
+            # the saved options are the caller's dict (or share state with it): backward must not mutate them either, the second
+            # backward pass through the same graph (retain_graph) or the next call sharing the dict would see different options
+            attrs = ctx_option_attrs(fc)
+            mod = fc.backward.module
+            for g in mod.functions.values():
+                if not (g is fc.backward or g.qualname.startswith(fc.backward.qualname + ".")):
+                    continue
+                gdefs = function_defs(g.node)
+                al2 = set()
+                for nm, ds in gdefs.items():
+                    if ds and all(isinstance(d, ast.Attribute) and isinstance(d.value, ast.Name) and d.value.id == fc.bctx and d.attr in attrs for d in ds):
+                        al2.add(nm)
+                for node in ast.walk(g.node):
+                    if isinstance(node, ast.Call) and isinstance(node.func, ast.Attribute) and node.func.attr in MUT:
+                        recv = node.func.value
+                        if (isinstance(recv, ast.Name) and recv.id in al2) or (isinstance(recv, ast.Attribute) and isinstance(recv.value, ast.Name)
+                                                                               and recv.value.id == fc.bctx and recv.attr in attrs):
+                            bad = node
+                    if isinstance(node, (ast.Assign, ast.AugAssign, ast.Delete)):
+                        tg = node.targets if isinstance(node, (ast.Assign, ast.Delete)) else [node.target]
+                        for t in tg:
+                            if isinstance(t, ast.Subscript):
+                                b = t.value
+                                if (isinstance(b, ast.Name) and b.id in al2) or (isinstance(b, ast.Attribute) and isinstance(b.value, ast.Name) and b.value.id == fc.bctx and b.attr in attrs):
+                                    bad = node
         n += 1
         if bad is None:
             R.ok(f.fq, "%s never mutates the caller's bck_options in place" % f.qualname)
         else:
-            R.bad(f, enclosing_stmt(bad) if not isinstance(bad, ast.stmt) else bad, "the caller's bck_options dictionary is mutated in place: options leak "
+            R.bad(f if any(bad is x for x in ast.walk(f.node)) else fc.backward, enclosing_stmt(bad) if not isinstance(bad, ast.stmt) else bad, "the caller's bck_options dictionary (or the saved options that alias it) is mutated in place: options leak "
                   "into later calls that share the dict (e.g. the mutable default `{}`)")
     return n
 
